@@ -15,8 +15,12 @@ class _Folder(ast.NodeTransformer):
 
     def generic_visit(self, node):
         if isinstance(node, ast.expr) and not isinstance(node, (ast.Constant,)):
-            if not (isinstance(node, ast.Name) and node.id in self.keep):
+            reads_chain = any((isinstance(x, ast.Attribute) and x.attr in ('params', 'coreparams')) or (isinstance(x, ast.Name) and x.id in ('params', 'coreparams'))
+                              for x in ast.walk(node))
+            if not (isinstance(node, ast.Name) and node.id in self.keep) and not reads_chain:
                 v = self.repo.fold(node, self.module, cls=self.cls, env=self.env)
+                if isinstance(v, float) and v == int(v):
+                    v = int(v)
                 if isinstance(v, (int, bytes, str)) and not isinstance(v, bool):
                     return ast.Constant(value=int(v) if isinstance(v, int) else v)
                 if v is None or isinstance(v, bool):
